@@ -6,7 +6,7 @@ props = [json.loads(l) for l in open(os.path.join(V, 'properties.jsonl'))]
 
 COMMON_NOTE = ("Trusted: Coq 8.16.1 kernel (vm_compute for witnesses; no native_compute); the hand-written Gallina model is tied to "
                "/repo by the correspondence run in this same check (extraction with ExtrOcamlBasic only + ocaml/driver.ml, which moves decimal text through zarith; exhaustive "
-               "inside the stated scopes, random beyond) and, for the statistics / snapshot ids / compact_timeslot, by a source-to-Gallina translation re-proved equal to the model on every run (harness/sourcetie.py); the Python oracle is the executable reading of the property text. ")
+               "inside the stated scopes, random beyond) and, for the presence test / has_interaction of both classes, the statistics / snapshot ids / compact_timeslot and annotate_paths, by a source-to-Gallina translation re-proved equal to the model on every run (harness/sourcetie.py); the Python oracle is the executable reading of the property text. ")
 
 def T(proved, partial=None, validated=None):
     t = "Machine-checked Coq theorems about the executable model (coq/theories/properties/%s.v): " + proved
@@ -20,8 +20,8 @@ def T(proved, partial=None, validated=None):
 
 TECH = "Coq proof (invariants over histories / refinement to a spec) + model-implementation correspondence (extraction, differential) + independent oracle"
 CLAIMED = {
- 'C01': dict(text=T("presence = union of accepted spans for every call sequence and both classes (C01_presence, C01_flat), outcome rule Done/ValueError/NetworkXError (C01_outcome_*), monotonicity and frame (C01_monotone_frame)."), design="DESIGN.md 5 C01"),
- 'C02': dict(text=T("[over the HISTORY, both classes, every call sequence: has_interaction / has_node(t) / nodes(t) / number_of_nodes / neighbours / predecessors / degree / digraph size(t) equal definitions written with the accepted calls' spans only (C02_history, C02_history_size)] in every state reachable by add_interaction/add_node (C02_reach): neighbors/successors/predecessors, nodes(t)/has_node/number_of_nodes, in_/out_interactions (with nbunch), undirected interactions(), degree and degree dicts (nbunch), size/number_of_interactions(t) with the handshake lemma (C02_size), density on the flattened graph, degree_histogram, non_neighbors, non_interactions, get_node_snapshots, is_empty are exactly the projections of has_interaction, each interaction once (C02_neighbors, C02_nodes, C02_in_out_interactions, C02_interactions_undirected, C02_degree, C02_degree_dict, C02_size, C02_density_flat, C02_degree_histogram, C02_non_neighbors, C02_non_interactions, C02_node_snapshots, C02_is_empty, C02_number_of_interactions_pair).",
+ 'C01': dict(text=T("[source-level tie: has_interaction and __presence_test of BOTH classes are translated from the Python text on every run (tools/py2gallina_core.py) and proved equal to the model's has_interaction for every state, C01_source_text / C01_source_to_spec] presence = union of accepted spans for every call sequence and both classes (C01_presence, C01_flat), outcome rule Done/ValueError/NetworkXError (C01_outcome_*), monotonicity and frame (C01_monotone_frame)."), design="DESIGN.md 5 C01"),
+ 'C02': dict(text=T("[source-level tie: the private presence test every query filters with is translated from the Python text of both classes on every run and proved equal to the model's presence_test, C02_source_text] [over the HISTORY, both classes, every call sequence: has_interaction / has_node(t) / nodes(t) / number_of_nodes / neighbours / predecessors / degree / digraph size(t) equal definitions written with the accepted calls' spans only (C02_history, C02_history_size)] in every state reachable by add_interaction/add_node (C02_reach): neighbors/successors/predecessors, nodes(t)/has_node/number_of_nodes, in_/out_interactions (with nbunch), undirected interactions(), degree and degree dicts (nbunch), size/number_of_interactions(t) with the handshake lemma (C02_size), density on the flattened graph, degree_histogram, non_neighbors, non_interactions, get_node_snapshots, is_empty are exactly the projections of has_interaction, each interaction once (C02_neighbors, C02_nodes, C02_in_out_interactions, C02_interactions_undirected, C02_degree, C02_degree_dict, C02_size, C02_density_flat, C02_degree_histogram, C02_non_neighbors, C02_non_interactions, C02_node_snapshots, C02_is_empty, C02_number_of_interactions_pair).",
                      "digraph interactions() is only sound (C02_interactions_partial / C02_digraph_interactions_refuted); undirected self-loop arithmetic: C02_size needs no_selfloop on DynGraph (C02_selfloop_refuted); density(G,t)=0 (C02_density_t_refuted).",
                      "the _iter / dn.* forms (one-line delegations) and non_interactions on DynDiGraph (set-order dependent) are compared by the correspondence / soundness oracle only."), design="DESIGN.md 5 C02"),
  'C03': dict(text=T("timelines are canonical, their union is the presence, both directions of an undirected pair expose one timeline (C03_canon, C03_union, C03_symmetric); time_slice/to_directed/to_undirected results and every graph the readers return (read_snapshots, read_interactions, node_link_graph; row and text level) satisfy all invariants, hence are canonical (C03_derived_wf, C03_wf_canon, C03_readers_wf, C03_wfg_canon)."), design="DESIGN.md 5 C03"),
@@ -31,7 +31,7 @@ CLAIMED = {
  'C06': dict(text=T("window errors/default, class, presence = window AND source presence, nodes+attributes, the slice is Good, WF and WFG (all invariants behind C02-C05), slicing a slice = slicing by the intersection of the windows for presence, snapshot ids, per-snapshot counts, node set and node attributes, empty when the windows do not meet (C06_window, C06_presence, C06_nodes, C06_slice_good, C06_slice_wellformed, C06_compose, C06_compose_ids, C06_compose_counts, C06_compose_nodes, C06_compose_disjoint).",
                      None, "source unchanged (aliasing: purity stamp + re-observation) and the order of events inside one instant of a composed slice are checked by the oracle."), design="DESIGN.md 5 C06"),
  'C07': dict(text=T("a rejected add_interaction leaves the whole state record unchanged in both modes, continuation, bulk helpers stop exactly before the failing element (C07_atomic, C07_continuation, C07_bulk, C07_bulk_missing_t)."), design="DESIGN.md 5 C07"),
- 'C08': dict(text=T("accumulative presence = first accepted add .. largest accepted instant, flattened, ids = accepted instants, stream = one '+' per pair and no '-' (C08_presence, C08_flat, C08_ids, C08_stream), query layer via C02's theorems (C08_queries).",
+ 'C08': dict(text=T("[source-level tie: the accumulative branch of the translated presence test = the model, C08_source_text] accumulative presence = first accepted add .. largest accepted instant, flattened, ids = accepted instants, stream = one '+' per pair and no '-' (C08_presence, C08_flat, C08_ids, C08_stream), query layer via C02's theorems (C08_queries).",
                      "query-layer findings shared with C02 (self-loop arithmetic, digraph interactions())."), design="DESIGN.md 5 C08"),
  'C09': dict(text=T("rows = one per interaction and present instant, no duplicates (C09_rows); reading the written rows back gives the same class and presence (C09_roundtrip); four-column rows (C09_four_columns); text level: render/parse of a row and of decimals are inverse (C09_text, C09_decimal).",
                      None, "open_file dispatch, gzip/bz2, file objects, byte encodings, string node ids; multi-megabyte files (450 000 rows and more) are checked on the implementation side only (row counts / read-back timelines), the list-based model cannot run them."), design="DESIGN.md 5 C09"),
@@ -44,7 +44,7 @@ CLAIMED = {
                      None, "tuple type and grouping under (first,last) keys; the '_' string encoding of occurrences."), design="DESIGN.md 5 C12"),
  'C13': dict(text=T("EXACT characterisation: a hop sequence whose first hop is not a root self-loop is returned iff it satisfies C12's conditions (C13_exact = soundness + C13_complete_partial; C13_dag_complete, C13_search_complete), absent root (C13_absent_root), all_time_respecting_paths = per-node queries (C13_all); sample<1: for ANY selection of source/target pairs the result is a duplicate-free sub-collection of the full result, errors unchanged, selecting all pairs = the unsampled function (C13_sample_subset, C13_sample_error, C13_sample_all).",
                      "first hop = self-loop of the root is missed (C13_complete_refuted, K-C13-1).", "which pairs numpy draws (the selection is a parameter of the model)."), design="DESIGN.md 5 C13"),
- 'C14': dict(text=T("each class is exactly the set of minimisers (C14_primary, C14_secondary), subset of the input, non-empty, metrics (C14_subset, C14_nonempty, C14_metrics); in the model the primary classes keep the multiplicity of repeated input paths (C14_primary_filter) -- the property does not fix it, so the implementation is compared at the level of sets."), design="DESIGN.md 5 C14"),
+ 'C14': dict(text=T("[source-level tie: path_length, path_duration and annotate_paths are translated from the Python text on every run (tools/py2gallina_paths.py) and proved equal to the model on every non-empty list, order and multiplicity included, C14_source_text / C14_source_to_spec] each class is exactly the set of minimisers (C14_primary, C14_secondary), subset of the input, non-empty, metrics (C14_subset, C14_nonempty, C14_metrics); in the model the primary classes keep the multiplicity of repeated input paths (C14_primary_filter) -- the property does not fix it, so the implementation is compared at the level of sets."), design="DESIGN.md 5 C14"),
  'C15': dict(text=T("edge soundness, exact sources, targets, window errors / empty DAG (C15_edge_sound, C15_sources, C15_targets, C15_window); the textual occurrence names \"<node>_<tid>\" are injective and both decoders invert them for arbitrary text ids, underscores included (C15_names_injective, C15_names_decode, C15_names_root, C15_names_first_underscore).",
                      "acyclicity holds without a root self-loop in the window (C15_acyclic_partial), refuted with one (C15_acyclic_refuted, K-C15-1)."), design="DESIGN.md 5 C15"),
  'C16': dict(text=T("to_undirected(): presence = OR of the two directions; reciprocal=True: AND (C16_undirected, C16_reciprocal); nodes/attributes kept; both conversions return graphs satisfying every invariant behind C02-C05 (C16_wellformed).",
